@@ -10,10 +10,12 @@ RULE = ("(a) scripted-loop model checking (see C12): all environment answer sequ
         "stationary interior / at the upper bound, non-stationary at the lower bound, feasible below the objective limit, infeasible below the "
         "limit); status, iteration count and returned point compared with the reference loop whose termination uses the oracle's classification; "
         "(b) complete real runs on infeasible / unbounded / core families and on starts outside the variable box (incl. one whose objective is already below the limit) x configurations x scalings x iteration limits: every LocallyInfeasible "
-        "and Unbounded result re-checked on the final internal iterate with the reference transformation, IterationLimit <=> iterations == limit")
+        "and Unbounded result re-checked on the final internal iterate with the reference transformation, IterationLimit <=> iterations == limit; "
+        "(c) IntegrationSolver.solve (outside the anchors, but also a solve): every iteration limit 0..k on every integration spec: iterations <= limit, "
+        "IterationLimit => iterations == limit, and differential against the unlimited run (limit below its count must end the solve there, above it changes nothing)")
 ASSUMPTIONS = ["a few runs use the real clock with a 0.75 s deadline in a process older than that: TimeLimit is only accepted if the wall time around solve() reached the limit", "otherwise TimeLimit is decided on a virtual clock: 'deadline passed' = the deciding read minus the timer's start read >= time_limit",
                "stationarity of the violation measure uses the true box projection (fixed variables are free), which the code's stricter test implies",
-               "IntegrationSolver is outside this property's anchors"]
+               "for IntegrationSolver only the iteration-limit clauses are checked (its Optimal test precedes nothing: a run that converges in exactly `limit` legs is Optimal)"]
 CASE_ALARM_S = 300
 TIMEOUT_IS_VIOLATION = "a solve with an iteration limit did not return"
 
@@ -30,6 +32,9 @@ def run_table(tier, seed):
                 sc = G.scalings_of(spec, (0, 1, 3, 4))[k % 4]
                 k += 1
                 out.append({"t": "run", "spec": spec, "cfg": c, "sc": sc})
+    for spec in (G.adversarial_specs()[:5] + G.core_specs()[:2]):
+        for vi in range(len(G.PARAM_VARIANTS)):
+            out.append({"t": "run", "spec": spec, "cfg": {"iteration_limit": 150, "pv": vi}, "sc": None})
     for spec in G.small_jacobian_specs():
         for rho in (1e-8, 1.0, 1e4, 1e8):
             for ctl in ("DistanceRatio", "Exact"):
@@ -47,8 +52,56 @@ def realtime_table(tier):
     return out
 
 
+def integration_table(tier):
+    """Flow-integration solver (the second solve() of the package): every limit 0..k for every integration spec of C01."""
+    from pgfmc.props import c01
+
+    limits = [0, 1, 2, 3, 5] if tier == "quick" else list(range(0, 10))
+    return [{"t": "integ", "spec": sp, "limits": limits} for sp in c01.integration_specs(tier)]
+
+
+def run_integration_limits(case):
+    import numpy as np
+    from pygradflow.integration.integration_solver import IntegrationSolver
+    from pgfmc.drive import run as R
+    from pgfmc.drive.problems import UserProblem
+
+    spec = case["spec"]
+
+    def one(limit):
+        params = R.make_params({"iteration_limit": limit})
+        try:
+            with np.errstate(all="ignore"):
+                r = IntegrationSolver(UserProblem(spec), params).solve(np.array(spec["x0"]), np.array(spec["y0"]))
+            return (r.status.name, int(r.iterations))
+        except Exception as e:
+            if type(e).__name__ == "CaseTimeout":
+                raise
+            return ("exc:" + type(e).__name__, None)
+
+    ref = one(40)
+    viol, n_lim = [], 0
+    for L_ in case["limits"]:
+        st, it = one(L_)
+        if it is None:
+            continue
+        if it > L_:
+            viol.append(M.V("C02|integration|iterations_exceed_limit", f"IntegrationSolver performed {it} iterations with iteration_limit={L_} ({spec['tag']})"))
+        if st == "IterationLimit":
+            n_lim += 1
+            if it != L_:
+                viol.append(M.V("C02|integration|limit_status_count", f"IntegrationSolver returned IterationLimit after {it} iterations with iteration_limit={L_} ({spec['tag']})"))
+        if ref[1] is not None and ref[1] < 40:
+            # the limit does not influence the trajectory: below the unlimited count the limit must end the solve, above it nothing changes
+            if L_ < ref[1] and (st, it) != ("IterationLimit", L_):
+                viol.append(M.V("C02|integration|limit_not_honoured", f"unlimited solve takes {ref[1]} iterations ({ref[0]}); with iteration_limit={L_} the result is {st} after {it} ({spec['tag']})"))
+            if L_ > ref[1] and (st, it) != ref:
+                viol.append(M.V("C02|integration|limit_changes_result", f"unlimited solve: {ref}; with the larger iteration_limit={L_}: {(st, it)} ({spec['tag']})"))
+    return {"outcome": "integration:" + ref[0], "key": spec["tag"] if n_lim else None, "violations": viol[:3], "stats": {"run": len(case["limits"]) + 1, "integ_limit": n_lim}}
+
+
 def cases(tier, seed):
-    return [dict(c, t="loop") for c in L.cases(tier, seed)] + run_table(tier, seed) + realtime_table(tier)
+    return [dict(c, t="loop") for c in L.cases(tier, seed)] + run_table(tier, seed) + realtime_table(tier) + integration_table(tier)
 
 
 def run_case(case):
@@ -56,6 +109,8 @@ def run_case(case):
         return L.run_chunk(case, ID)
     from pgfmc.drive.run import outcome_of
 
+    if case["t"] == "integ":
+        return run_integration_limits(case)
     if case["t"] == "realtime":
         import time
 
@@ -71,12 +126,13 @@ def run_case(case):
         if r is not None and r.status.name == "TimeLimit" and wall < 0.75:
             viol.append(M.V("C02|time_limit_before_deadline", f"TimeLimit after {r.iterations} iterations although solve() took {wall:.3f}s of a 0.75s limit"))
         return {"outcome": "realtime:" + outcome_of(ctx.rec), "key": None, "violations": viol, "stats": {"run": 1}}
+    case = G.with_variant(case)
     ctx = G.execute(case)
     if ctx.setup_error is not None:
         return {"outcome": "setup:" + type(ctx.setup_error).__name__, "key": None, "violations": [], "stats": {}}
     viol = M.mon_c02(ctx.rec, ctx.F, ctx.weights, ctx.params)
     oc = outcome_of(ctx.rec)
-    key = f"{case['spec']['tag']}|{G.cfg_key(case['cfg'])}|{case['cfg']['iteration_limit']}|{ctx.weights}" if oc in ("LocallyInfeasible", "Unbounded", "IterationLimit") else None
+    key = f"{case['spec']['tag']}|{G.cfg_key(case['cfg'])}|{case['cfg']['iteration_limit']}|{ctx.weights}|{sorted((case['cfg'].get('params') or {}).keys())}" if oc in ("LocallyInfeasible", "Unbounded", "IterationLimit") else None
     return {"outcome": oc, "key": key, "violations": viol, "stats": {"run": 1}}
 
 
@@ -100,6 +156,8 @@ def vacuity(cases_, results, tier):
     for need in ("LocallyInfeasible", "Unbounded", "IterationLimit"):
         if oc.get(need, 0) < 10:
             out.append(f"fewer than 10 real runs ended {need}")
+    if sum(r["stats"].get("integ_limit", 0) for r in results) < 50:
+        out.append("fewer than 50 flow-integration solves ended at their iteration limit")
     lo = L.merge(results)["loop_outcomes"]
     for need in ("LocallyInfeasible", "Unbounded", "IterationLimit", "TimeLimit", "Optimal"):
         if lo.get(need, 0) < 10:
